@@ -191,6 +191,7 @@ def main(argv):
     ctx = C.Ctx(pid, tier, seed)
     try:
         info = lean_phase(ctx, mod)
+        ctx.cov['pycode'] = C.ensure_pycode()
         mod.run(ctx)
         if (ctx.broken or ctx.disagreements) and not ctx.oracle_failures and hasattr(mod, 'search'):
             print('[%s] an obligation or the correspondence broke; searching the real code for a failing input'
